@@ -656,7 +656,8 @@ def check_archives(ctx, rep, rng, tier):
                     # names / sizes / CRCs stored = first principles
                     names = ["".join(chr(c) for c in f[1][0]) for f in ind["files"]]
                     sub = ind["sub"]
-                    if names != [n for n, _ in members] or list(sub[1][0]) != [len(d) for _, d in members] or \
+                    stored_sizes = list(sub[1][0]) if sub[1] else [fo[3][-1]]
+                    if names != [n for n, _ in members] or stored_sizes != [len(d) for _, d in members] or \
                             list(sub[3]) != [zlib.crc32(d) for _, d in members]:
                         bad = ("meta", "stored names/sizes/CRCs differ from the members written")
                 if not bad:
@@ -826,7 +827,7 @@ def read_outcome(a, password, op, members, limit=3.0):
     """one reading call; -> (class, detail); classes: refused(PasswordRequired) / error(<exception>) / hang /
     delivered-original / delivered-DIFFERENT / no-bytes (a call that returns no member bytes) / empty-archive"""
     want = dict(members)
-    d = tempfile.mkdtemp(prefix="c11x")
+    d = tempfile.mkdtemp(prefix="c11x") if op in ("extractall", "extract_one") else None
     old = signal.signal(signal.SIGALRM, _alarm)
     signal.setitimer(signal.ITIMER_REAL, limit)
     z = None
@@ -855,7 +856,7 @@ def read_outcome(a, password, op, members, limit=3.0):
             fac = arch.Collect()
             z.extractall(factory=fac)
             got = fac.as_dict()
-        if op != "extractall_factory":
+        if d is not None:
             for dp, dn, fn in os.walk(d):
                 for f in fn:
                     p = os.path.join(dp, f)
@@ -876,12 +877,13 @@ def read_outcome(a, password, op, members, limit=3.0):
         signal.setitimer(signal.ITIMER_REAL, 0)
         signal.signal(signal.SIGALRM, old)
         left = []
-        for dp, dn, fn in os.walk(d):
-            for f in fn:
-                p = os.path.join(dp, f)
-                left.append((os.path.relpath(p, d), os.path.getsize(p), open(p, "rb").read() == want.get(os.path.relpath(p, d))))
+        if d is not None:
+            for dp, dn, fn in os.walk(d):
+                for f in fn:
+                    p = os.path.join(dp, f)
+                    left.append((os.path.relpath(p, d), os.path.getsize(p), open(p, "rb").read() == want.get(os.path.relpath(p, d))))
+            shutil.rmtree(d, ignore_errors=True)
         read_outcome.left = left
-        shutil.rmtree(d, ignore_errors=True)
         try:
             if z is not None:
                 z.close()
@@ -931,62 +933,69 @@ def allowed(pwkind, hmode, op, cls):
 
 
 def check_outcomes(ctx, rep, rng, tier):
+    import multiprocessing.pool
     sets = member_sets(rng, "quick")
     garbage_left = 0
     empty_left = 0
-    chains = AES_CHAINS
-    for ci, chain in enumerate(chains):
+    jobs = []
+    for ci, chain in enumerate(AES_CHAINS):
         for hmode, setter in ((1, False), (2, False), (2, True)):
             if tier == "quick" and setter and ci % 2:
                 continue
-            pw = PASSWORDS[(ci + hmode) % len(PASSWORDS)] if tier == "quick" else None
-            for pw in ([pw] if pw is not None else PASSWORDS):
+            for pw in ([PASSWORDS[(ci + hmode) % len(PASSWORDS)]] if tier == "quick" else PASSWORDS):
                 members = sets[(ci + hmode) % len(sets)]
                 a = build(members, chain, pw, hmode, via_setter=setter)
                 cases = []
                 kinds = []
                 for op in OPS:
                     cases.append([None, op])
-                    kinds.append(("absent", None))
-                for op in ("extractall_factory", "list"):
+                    kinds.append("absent")
+                for op in ("extractall_factory", "list", "testzip"):
                     cases.append([pw, op])
-                    kinds.append(("right", pw))
-                wr = wrong_passwords(pw)
-                for kind, w in wr:
+                    kinds.append("right")
+                for kind, w in wrong_passwords(pw):
                     ops = OPS if (tier != "quick" or kind == "different") else ("extractall_factory", "testzip", "extract_one")
                     for op in ops:
                         cases.append([w, op])
-                        kinds.append((kind, w))
-                res, raw = sandbox_outcomes(a, members, cases)
-                if res is None:
-                    rep.violation("%s header mode %d: the reading calls took the sandbox down: %r" % (chain, hmode, raw),
-                                  {"kind": "outcome-crash", "chain": chain, "hmode": hmode, "archive": a.hex(),
-                                   "members": [[n, d.hex()] for n, d in members], "cases": cases},
-                                  match_keys={"kind": "outcome-crash", "chain": chain})
-                    continue
-                for (p, op), (kind, _), (cls, det, left) in zip(cases, kinds, res):
-                    pk = "right" if kind == "right" else ("absent" if kind == "absent" else "wrong")
-                    rep.count(("outcome", chain, hmode, setter, pw, p, op), nontrivial=True)
-                    rep.dist("outcome_%s" % pk, "%s:%s" % (cls, det if cls in ("error", "refused") else ""))
-                    for nm, sz, same in left:
-                        if pk != "right" and sz > 0 and not same:
-                            garbage_left += 1
-                        if pk != "right" and sz == 0:
-                            empty_left += 1
-                    if not allowed(pk, hmode, op, cls):
-                        shape = "%s-password-%s" % (pk, cls)
-                        rep.violation("%s, header mode %d, password %r, reading with %r (%s): %s -> %s (%s)" % (
-                            chain, hmode, pw, p, kind, op, cls, det),
-                            {"kind": "outcome", "chain": chain, "hmode": hmode, "setter": setter, "password": pw, "with": p, "op": op,
-                             "archive": a.hex(), "members": [[n, d.hex()] for n, d in members], "class": cls},
-                            match_keys={"kind": "outcome", "shape": shape, "op": op, "hmode": hmode})
-                        if len(rep.violations) > 6:
-                            return
+                        kinds.append(kind)
+                jobs.append((chain, hmode, setter, pw, members, a, cases, kinds))
+    pool = multiprocessing.pool.ThreadPool(12)
+    try:
+        results = pool.map(lambda j: sandbox_outcomes(j[5], j[4], j[6]), jobs)
+    finally:
+        pool.close()
+    for (chain, hmode, setter, pw, members, a, cases, kinds), (res, raw) in zip(jobs, results):
+        if res is None:
+            rep.violation("%s header mode %d: the reading calls took the sandbox down: %r" % (chain, hmode, raw),
+                          {"kind": "outcome-crash", "chain": chain, "hmode": hmode, "archive": a.hex(),
+                           "members": [[n, d.hex()] for n, d in members], "cases": cases},
+                          match_keys={"kind": "outcome-crash", "chain": chain})
+            continue
+        for (p, op), kind, (cls, det, left) in zip(cases, kinds, res):
+            pk = kind if kind in ("right", "absent") else "wrong"
+            rep.count(("outcome", chain, hmode, setter, pw, p, op), nontrivial=True)
+            rep.dist("outcome_%s" % pk, "%s:%s" % (cls, det.split(" names ")[0] if cls in ("error", "refused") else ""))
+            rep.dist("wrong_password_kind", kind)
+            for nm, sz, same in left:
+                if pk != "right" and sz > 0 and not same:
+                    garbage_left += 1
+                if pk != "right" and sz == 0:
+                    empty_left += 1
+            if not allowed(pk, hmode, op, cls):
+                shape = "%s-password-%s" % (pk, cls)
+                rep.violation("%s, header mode %d, password %r, reading with %r (%s): %s -> %s (%s)" % (
+                    chain, hmode, pw, p, kind, op, cls, det),
+                    {"kind": "outcome", "chain": chain, "hmode": hmode, "setter": setter, "password": pw, "with": p, "op": op,
+                     "archive": a.hex(), "members": [[n, d.hex()] for n, d in members], "class": cls},
+                    match_keys={"kind": "outcome", "shape": shape, "op": op, "hmode": hmode})
+                if len(rep.violations) > 6:
+                    return
     rep.extra["garbage_left_on_error"] = {
         "files_with_wrong_bytes_left_on_disk_after_an_exception": garbage_left,
         "empty_files_left_on_disk_after_an_exception": empty_left,
         "note": "extractall/extract write a member's bytes before comparing its CRC; with a wrong password the garbage "
-                "stays on disk although CrcError is raised (not counted as 'delivered'; relevant to C04)"}
+                "stays on disk although CrcError is raised; without a password an empty file is created before "
+                "PasswordRequired is raised (neither is counted as 'delivered'; relevant to C04)"}
 
 
 # ------------------------------------------------------------------ wrong passwords at scale (numcyclespower = 0)
@@ -1000,11 +1009,14 @@ def make_cycles0_archive(model, members, chain, pw, hmode, rec):
     def enc0(self):
         p = realenc(self)
         return bytes([(p[0] & 0xC0) | 0]) + p[1:]
+    saved = ph._time.time
     try:
+        ph._time.time = lambda: 1700000000.0
         pc.calculate_key = lambda pwb, cyc, salt, dig: real(pwb, 0, salt, dig)
         pc.AESCompressor.encode_filter_properties = enc0
         a = build(members, chain, pw, hmode, rng=rec)
     finally:
+        ph._time.time = saved
         pc.calculate_key = real
         pc.AESCompressor.encode_filter_properties = realenc
     ind = indep_read(model, a, pw)    # raises if the archive is not what the format says
@@ -1037,7 +1049,7 @@ def check_many_wrong(ctx, rep, rng, tier):
     if model is None:
         return
     members = member_sets(rng, "quick")[1]
-    per = 600 if tier == "quick" else 6000
+    per = 2500 if tier == "quick" else 40000
     jobs = []
     for chain in AES_CHAINS:
         for hmode in (1, 2):
@@ -1051,7 +1063,7 @@ def check_many_wrong(ctx, rep, rng, tier):
     def run(job):
         chain, hmode, a = job
         arg = {"archive": a.hex(), "members": [[n, d.hex()] for n, d in members], "start": 0, "count": per,
-               "op": "extractall_factory", "limit": 2.0, "budget": 50 if tier == "quick" else 600}
+               "op": "extractall_factory", "limit": 1.0, "budget": 45 if tier == "quick" else 600}
         return job, run_sandboxed("harness.c11:worker_many_wrong", arg, timeout=90 if tier == "quick" else 900, mem_mb=3000)
     try:
         results = pool.map(run, jobs)
